@@ -40,12 +40,12 @@ theorem changeSlotStates_spec (slots : List Slot) (b : Bool) :
       by_cases hi : n.index = sl.node
       · have e : (sl :: sls).filter (fun s => s.node = n.index) = sl :: sls.filter (fun s => s.node = n.index) := by
           simp [filter_cons, hi]
-        rw [if_pos hi, e, applySlot_index]
+        simp only [if_pos hi, applySlot_index, e]
         rfl
       · have e : (sl :: sls).filter (fun s => s.node = n.index) = sls.filter (fun s => s.node = n.index) := by
           have : ¬ sl.node = n.index := fun x => hi x.symm
           simp [filter_cons, this]
-        rw [if_neg hi, e]
+        simp only [if_neg hi, e]
     · rw [if_neg ha] at h; cases h
 
 theorem changeSlotStates_some (slots : List Slot) (b : Bool) :
@@ -148,11 +148,11 @@ def GDisj (held : List (Nat × List Slot)) : Prop :=
 structure HInv (nodes0 nodes : List NodeSt) (held : List (Nat × List Slot)) : Prop where
   wf     : NodesWF nodes0
   len    : nodes.length = nodes0.length
-  node   : ∀ i n0 n, nodes0[i]? = some n0 → nodes[i]? = some n → NodeInv n0 n (heldSlots held)
+  node   : ∀ (i : Nat) (n0 n : NodeSt), nodes0[i]? = some n0 → nodes[i]? = some n → NodeInv n0 n (heldSlots held)
   onNode : ∀ sl ∈ heldSlots held, ∃ n0 ∈ nodes0, n0.index = sl.node
   gdisj  : GDisj held
 
-theorem hinv_index (nodes0 nodes : List NodeSt) (held) (h : HInv nodes0 nodes held) :
+theorem hinv_index (nodes0 nodes : List NodeSt) (held : List (Nat × List Slot)) (h : HInv nodes0 nodes held) :
     nodes.map (·.index) = nodes0.map (·.index) := by
   apply ext_getElem?
   intro i
@@ -160,35 +160,45 @@ theorem hinv_index (nodes0 nodes : List NodeSt) (held) (h : HInv nodes0 nodes he
   cases hn : nodes[i]? with
   | none =>
     have : nodes0[i]? = none := by
-      rw [getElem?_eq_none_iff] at hn ⊢; rw [← h.len]; exact hn
+      rw [List.getElem?_eq_none_iff] at hn ⊢; rw [← h.len]; exact hn
     rw [this]
   | some n =>
-    have hi : i < nodes0.length := by rw [← h.len]; exact (getElem?_eq_some_iff.mp hn).1
+    have hi : i < nodes0.length := by rw [← h.len]; exact (List.getElem?_eq_some_iff.mp hn).1
     have hn0 : nodes0[i]? = some nodes0[i] := getElem?_eq_getElem hi
     rw [hn0]
     simp [(h.node i _ n hn0 hn).idx]
 
-theorem hinv_wf (nodes0 nodes : List NodeSt) (held) (h : HInv nodes0 nodes held) : NodesWF nodes := by
+theorem hinv_wf (nodes0 nodes : List NodeSt) (held : List (Nat × List Slot)) (h : HInv nodes0 nodes held) : NodesWF nodes := by
   unfold NodesWF; rw [hinv_index nodes0 nodes held h]; exact h.wf
 
-theorem hinv_pos (nodes0 nodes : List NodeSt) (held) (h : HInv nodes0 nodes held) (n : NodeSt) (hn : n ∈ nodes) :
-    ∃ i n0, nodes0[i]? = some n0 ∧ nodes[i]? = some n := by
+theorem hinv_pos (nodes0 nodes : List NodeSt) (held : List (Nat × List Slot)) (h : HInv nodes0 nodes held) (n : NodeSt) (hn : n ∈ nodes) :
+    ∃ (i : Nat) (n0 : NodeSt), nodes0[i]? = some n0 ∧ nodes[i]? = some n := by
   obtain ⟨i, hi⟩ := getElem?_of_mem hn
-  have hlt : i < nodes0.length := by rw [← h.len]; exact (getElem?_eq_some_iff.mp hi).1
+  have hlt : i < nodes0.length := by rw [← h.len]; exact (List.getElem?_eq_some_iff.mp hi).1
   exact ⟨i, nodes0[i], getElem?_eq_getElem hlt, hi⟩
 
-theorem hinv_nonneg (nodes0 nodes : List NodeSt) (held) (h : HInv nodes0 nodes held) : NonNeg nodes := by
+theorem hinv_nonneg (nodes0 nodes : List NodeSt) (held : List (Nat × List Slot)) (h : HInv nodes0 nodes held) : NonNeg nodes := by
   intro n hn
   obtain ⟨i, n0, h0, hi⟩ := hinv_pos nodes0 nodes held h n hn
   exact ⟨(h.node i n0 n h0 hi).lfs0, (h.node i n0 n h0 hi).mem0⟩
 
 theorem hinv_init (nodes0 : List NodeSt) (hw : NodesWF nodes0) (hnn : NonNeg nodes0) : HInv nodes0 nodes0 [] := by
-  refine ⟨hw, rfl, ?_, fun sl hs => by cases hs, Pairwise.nil⟩
+  refine ⟨hw, rfl, ?_, (fun sl hs => by cases hs), Pairwise.nil⟩
   intro i n0 n h0 hn
   rw [h0] at hn; cases hn
   have hm := mem_of_getElem? h0
-  exact ⟨rfl, nodup_nil, fun c hc => by cases hc, rfl, fun g hg => by cases hg, rfl,
-         by simp [heldSlots, lfsOn], by simp [heldSlots, memOn], (hnn n0 hm).1, (hnn n0 hm).2⟩
+  have hc : coresOn (heldSlots []) n0.index = [] := rfl
+  have hg : gpusOn (heldSlots []) n0.index = [] := rfl
+  have hl : lfsOn (heldSlots []) n0.index = 0 := rfl
+  have hme : memOn (heldSlots []) n0.index = 0 := rfl
+  refine ⟨rfl, ?_, ?_, ?_, ?_, ?_, ?_, ?_, (hnn n0 hm).1, (hnn n0 hm).2⟩
+  · rw [hc]; exact nodup_nil
+  · intro c h; rw [hc] at h; cases h
+  · rw [hc]; rfl
+  · intro g h; rw [hg] at h; cases h
+  · rw [hg]; rfl
+  · rw [hl]; simp
+  · rw [hme]; simp
 
 theorem heldSlots_append (a b : List (Nat × List Slot)) : heldSlots (a ++ b) = heldSlots a ++ heldSlots b := by
   simp [heldSlots]
@@ -306,5 +316,108 @@ theorem hinv_alloc (nodes0 nodes ns : List NodeSt) (held : List (Nat × List Slo
       exact mem_flatMap.mpr ⟨s1, mem_filter.mpr ⟨mem_flatMap.mpr ⟨a, ha, hs1'.1⟩, hs1'.2⟩, hg1⟩
     have := nodeinv_gpu_busy n0 n _ ni g hold
     rw [hfree] at this; cases this
+
+/-! ### releasing -/
+
+theorem heldSlots_split (A B : List (Nat × List Slot)) (e : Nat × List Slot) :
+    heldSlots (A ++ e :: B) = heldSlots A ++ e.2 ++ heldSlots B := by
+  simp [heldSlots]
+
+theorem mem_gpusOn_heldSlots (L : List (Nat × List Slot)) (idx g : Nat) (h : g ∈ gpusOn (heldSlots L) idx) :
+    ∃ a ∈ L, g ∈ gpusOn a.2 idx := by
+  induction L with
+  | nil => cases h
+  | cons a as ih =>
+    have e : heldSlots (a :: as) = a.2 ++ heldSlots as := by simp [heldSlots]
+    rw [e, gpusOn_append] at h
+    rcases mem_append.mp h with h | h
+    · exact ⟨a, mem_cons_self, h⟩
+    · obtain ⟨b, hb, hg⟩ := ih h
+      exact ⟨b, mem_cons_of_mem _ hb, hg⟩
+
+theorem hinv_release (nodes0 nodes ns : List NodeSt) (held : List (Nat × List Slot)) (e : Nat × List Slot)
+    (h : HInv nodes0 nodes held) (he : e ∈ held) (hc : changeSlotStates nodes e.2 false = some ns) :
+    HInv nodes0 ns (held.erase e) := by
+  obtain ⟨A, B, _, hsplit, herase⟩ := exists_erase_eq he
+  have hspec := changeSlotStates_spec e.2 false nodes ns hc
+  rw [herase]
+  have hH  : heldSlots held = heldSlots A ++ e.2 ++ heldSlots B := by rw [hsplit, heldSlots_split]
+  have hH' : heldSlots (A ++ B) = heldSlots A ++ heldSlots B := heldSlots_append A B
+  have hgd : GDisj (A ++ e :: B) := hsplit ▸ h.gdisj
+  have hgdA : ∀ a ∈ A, ∀ idx, ∀ g ∈ gpusOn a.2 idx, g ∉ gpusOn e.2 idx := by
+    intro a ha
+    exact (pairwise_append.mp hgd).2.2 a ha e mem_cons_self
+  have hgdB : ∀ b ∈ B, ∀ idx, ∀ g ∈ gpusOn e.2 idx, g ∉ gpusOn b.2 idx := by
+    intro b hb
+    exact (pairwise_cons.mp (pairwise_append.mp hgd).2.1).1 b hb
+  refine ⟨h.wf, by rw [hspec, length_map]; exact h.len, ?_, ?_, ?_⟩
+  · intro i n0 n' h0 hn'
+    rw [hspec, getElem?_map] at hn'
+    cases hn : nodes[i]? with
+    | none => rw [hn] at hn'; cases hn'
+    | some n =>
+      rw [hn] at hn'
+      simp only [Option.map_some, Option.some.injEq] at hn'
+      have ni := h.node i n0 n h0 hn
+      have hidx : n.index = n0.index := ni.idx
+      subst hn'
+      rw [hH']
+      have hcn := ni.cnodup
+      rw [hH, coresOn_append, coresOn_append] at hcn
+      have hcd : ∀ j ∈ coresOn e.2 n0.index, j ∉ coresOn (heldSlots A) n0.index ∧ j ∉ coresOn (heldSlots B) n0.index := by
+        intro j hj
+        have h1 := nodup_append.mp hcn
+        have h2 := nodup_append.mp h1.1
+        exact ⟨fun hx => h2.2.2 j hx j hj rfl, fun hx => h1.2.2 j (mem_append_right _ hj) j hx rfl⟩
+      have hgdj : ∀ j ∈ gpusOn e.2 n0.index, j ∉ gpusOn (heldSlots A) n0.index ∧ j ∉ gpusOn (heldSlots B) n0.index := by
+        intro j hj
+        refine ⟨fun hx => ?_, fun hx => ?_⟩
+        · obtain ⟨a, ha, hg⟩ := mem_gpusOn_heldSlots A _ _ hx
+          exact hgdA a ha _ j hg hj
+        · obtain ⟨b, hb, hg⟩ := mem_gpusOn_heldSlots B _ _ hx
+          exact hgdB b hb _ j hj hg
+      refine ⟨by rw [applyAll_index]; exact hidx, ?_, ?_, ?_, ?_, ?_, ?_, ?_, ?_, ?_⟩
+      · rw [coresOn_append]
+        have h1 := nodup_append.mp hcn
+        have h2 := nodup_append.mp h1.1
+        refine nodup_append.mpr ⟨h2.1, h1.2.1, ?_⟩
+        intro a ha b hb hab
+        exact h1.2.2 a (mem_append_left _ ha) b hb hab
+      · intro c hc'
+        rw [coresOn_append] at hc'
+        apply ni.cfree0
+        rw [hH, coresOn_append, coresOn_append]
+        rcases mem_append.mp hc' with x | x
+        · exact mem_append_left _ (mem_append_left _ x)
+        · exact mem_append_right _ x
+      · rw [applyAll_cores, ni.cores, hH, coresOn_append, coresOn_append, coresOn_append, hidx]
+        exact foldSet_release n0.cores _ _ _ hcd
+          (fun j hj => ni.cfree0 j (by rw [hH, coresOn_append, coresOn_append]; exact mem_append_left _ (mem_append_right _ hj)))
+      · intro g hg'
+        rw [gpusOn_append] at hg'
+        apply ni.gfree0
+        rw [hH, gpusOn_append, gpusOn_append]
+        rcases mem_append.mp hg' with x | x
+        · exact mem_append_left _ (mem_append_left _ x)
+        · exact mem_append_right _ x
+      · rw [applyAll_gpus, ni.gpus, hH, gpusOn_append, gpusOn_append, gpusOn_append, hidx]
+        exact foldSet_release n0.gpus _ _ _ hgdj
+          (fun j hj => ni.gfree0 j (by rw [hH, gpusOn_append, gpusOn_append]; exact mem_append_left _ (mem_append_right _ hj)))
+      · rw [applyAll_lfs, if_neg (by simp), ni.lfs, hH, lfsOn_append, lfsOn_append, lfsOn_append, hidx]
+        simp only [lfsOn]; omega
+      · rw [applyAll_mem, if_neg (by simp), ni.mem, hH, memOn_append, memOn_append, memOn_append, hidx]
+        simp only [memOn]; omega
+      · rw [applyAll_lfs, if_neg (by simp)]
+        have := ni.lfs0; omega
+      · rw [applyAll_mem, if_neg (by simp)]
+        have := ni.mem0; omega
+  · intro sl hs
+    apply h.onNode
+    rw [hH]; rw [hH'] at hs
+    rcases mem_append.mp hs with x | x
+    · exact mem_append_left _ (mem_append_left _ x)
+    · exact mem_append_right _ x
+  · have : (A ++ B).Sublist (A ++ e :: B) := Sublist.append_left (sublist_cons_self e B) A
+    exact Pairwise.sublist this hgd
 
 end RPVerif.Sched
